@@ -102,7 +102,13 @@ func newSystem(c config) (*system, error) {
 		return nil, err
 	}
 	sys.bwe = b
-	b.OnTargetBitrateChange(func(r int) { sys.cb = append(sys.cb, r) })
+	b.OnTargetBitrateChange(func(r int) {
+		sys.cb = append(sys.cb, r)
+		// what an application does with the notification: it reads the estimator's getters (the value itself is
+		// compared once everything has settled; a newer estimate may already be in)
+		_ = b.GetTargetBitrate()
+		_ = b.GetStats()
+	})
 	sys.info = hk.StreamInfo(true, 1, c.Kind == "twcc")
 	sys.w = b.AddStream(sys.info, &hk.RTPSink{})
 	return sys, nil
